@@ -999,5 +999,46 @@ def run(ctx):
     for rs in results:
         fold(ctx, impl, rs, "generated")
     report(ctx, impl)
-    ctx.extra["partial"] = ("k*maxval >= 2^24 (u16 with k > 256) is outside C10_sum_exact; the whole-runtime part "
-                            "(C10_reaches_storage under thread schedules, D13) is the integrator's")
+    pipeline_stage(ctx, thorough)
+    ctx.extra["partial"] = ("k*maxval >= 2^24 (u16 with k > 256) is outside C10_sum_exact; that every emitted frame reaches storage and the "
+                            "monitor under every thread schedule is checked on the whole runtime by the pipeline stage of this check (an "
+                            "oracle over runs under the deterministic scheduler), not proved in the pipeline model (whose grammar has averaging off)")
+
+
+def pipeline_stage(ctx, thorough):
+    """C10 on the WHOLE runtime: acquire.c + source/filter/sink threads + channel + HAL compiled from the working tree against the
+    deterministic scheduler and the mock driver (fam/pipe), finite acquisitions with frame averaging 2..4, integer sample types,
+    rings of 2-6 output frames (so the accumulator lands on recycled memory and windows straddle lap boundaries), random and PCT
+    schedules, slow storage, a monitoring client: storage and the monitor must receive, in order, one f32 frame per complete
+    window, frame id = the window's first, pixels = the binary32 mean recomputed here (exact: sums < 2^24, one rounding)."""
+    import sys as _sys
+    pdir = os.path.join(vlib.VERIF, "fam", "pipe")
+    if pdir not in _sys.path:
+        _sys.path.insert(0, pdir)
+    import pipelib
+    exe = pipelib.build(ctx, name="h_pipe_avg")
+    n = 4000 if thorough else 350
+    cases = [pipelib.scenario(ctx.rng, "avg") for _ in range(n)]
+    results = vlib.parallel(lambda c: pipelib.run_prog(exe, c[0]), cases)
+    wins = 0
+    for (prog, meta), (rc, lines, err) in zip(cases, results):
+        nav = sum(l.count(" t=4 ") for l in lines if " append " in l)
+        wins += nav
+        ctx.case("pipeline\n" + "\n".join(prog), nontrivial=nav > 0)
+        ctx.count("pipeline:runs")
+        if rc not in (0, 42, 43):
+            ctx.violation("[pipeline] the runtime crashed or a sanitizer reported an error with frame averaging on: %s" % (err or "")[-500:],
+                          {"program": prog, "stderr": (err or "")[-3000:], "how": "python3 fam/pipe/tryprog.py <this file> .build/C10/h_pipe_avg"}, key="pipeline-crash")
+            continue
+        if any(l.startswith(("DEADLOCK", "STEPLIMIT")) for l in lines[-40:]):
+            ctx.count("pipeline:did-not-finish (C07's subject)")
+            continue
+        for p, key, msg in pipelib.oracle(prog, lines, meta):
+            if p == "C10":
+                ctx.count("pipeline:" + key)
+                ctx.violation("[pipeline] " + msg, {"program": prog, "log_tail": lines[-30:],
+                                                    "how": "python3 fam/pipe/tryprog.py <this file> .build/C10/h_pipe_avg"}, key="pipeline-" + key)
+        ctx.traces_validated += 1
+    ctx.count("pipeline:averaged frames appended", wins)
+    ctx.notes.append("pipeline stage: %d whole-runtime runs with averaging on, %d averaged frames reached storage and were compared bit for bit "
+                     "with the recomputed binary32 means" % (n, wins))
